@@ -16,6 +16,7 @@ import (
 	"sync"
 	"time"
 
+	"verif/codec"
 	"verif/ev"
 	vrt "verif/rt"
 )
@@ -29,15 +30,15 @@ type Finding struct {
 
 // Scn is one closed scenario.
 type Scn struct {
-	Name   string
-	Props  []string // properties whose check explores this scenario
-	Body   func()
-	Check  func(x *vrt.Sched, w *World) []Finding
-	Quick  int // preemption bound (quick); -1 = unbounded
-	Thor   int // preemption bound (thorough)
-	MaxPts int
-	// RaceProps maps a location prefix to the property (besides C15) that owns races on it.
+	Name    string
+	Props   []string // properties whose check explores this scenario
+	Body    func()
+	Check   func(x *vrt.Sched, w *World) []Finding
+	Quick   int // preemption bound (quick); -1 = unbounded
+	Thor    int // preemption bound (thorough)
+	MaxPts  int
 	NoRaces bool
+	Spec    *Spec // set for Spec-driven scenarios
 }
 
 var scenarios []*Scn
@@ -57,6 +58,10 @@ type scnResult struct {
 	Inconclusive bool              `json:"inconclusive"`
 	Bound        int               `json:"bound"`
 	Outcomes     map[string]int    `json:"outcomes"`
+	ClientOutc   map[string]int    `json:"client_outcomes"`
+	RealRuns     int               `json:"real_runs"`
+	RealInSet    int               `json:"real_in_set"`
+	RealOutside  []string          `json:"real_outside"`
 	OutcomeSamp  map[string]string `json:"-"`
 	Viol         []*ev.Violation   `json:"violations"`
 	Sample       []string          `json:"sample_log"`
@@ -116,6 +121,9 @@ func evaluate(prop string, sc *Scn, x *vrt.Sched, choices []int, res *scnResult,
 	}
 	if x.Horizon {
 		return // not a complete execution: oracles on final state do not apply
+	}
+	if sc.Spec != nil && w != nil && !x.RaceAbort && !x.Deadlock && x.Crash == nil {
+		res.ClientOutc[clientOutcome(w)]++
 	}
 	if x.RaceAbort {
 		sc2 := *sc
@@ -193,7 +201,7 @@ type job struct {
 }
 
 func newRes(sc *Scn, bound int) *scnResult {
-	return &scnResult{Name: sc.Name, Bound: bound, Outcomes: map[string]int{}}
+	return &scnResult{Name: sc.Name, Bound: bound, Outcomes: map[string]int{}, ClientOutc: map[string]int{}}
 }
 
 func runJob(j *job) *scnResult {
@@ -235,6 +243,9 @@ func merge(dst, src *scnResult, idx map[string]*ev.Violation) {
 	dst.Inconclusive = dst.Inconclusive || src.Inconclusive
 	for k, v := range src.Outcomes {
 		dst.Outcomes[k] += v
+	}
+	for k, v := range src.ClientOutc {
+		dst.ClientOutc[k] += v
 	}
 	for _, v := range src.Viol {
 		if o, ok := idx[v.Key]; ok {
@@ -284,6 +295,8 @@ func main() {
 		}
 		json.NewEncoder(os.Stdout).Encode(runJob(&j))
 		return
+	case "real": // sched real <scenario> <prop> : one free-running execution on real sockets (real-socket build only)
+		os.Exit(runReal(os.Args[2], os.Args[3]))
 	case "all": // sched all <bound> : every scenario in-process, all oracles (debugging)
 		var b int
 		fmt.Sscanf(os.Args[2], "%d", &b)
@@ -372,6 +385,7 @@ func main() {
 			// the last bound's numbers are the scenario's (lower bounds are subsets)
 			total.Execs, total.Steps, total.States, total.Pruned, total.Horizons, total.Deadlocks, total.Crashes = 0, 0, 0, 0, 0, 0, 0
 			total.Outcomes = map[string]int{}
+			total.ClientOutc = map[string]int{}
 			merge(total, res, idx)
 			if res.CapHit {
 				total.CapHit = true
@@ -383,6 +397,13 @@ func main() {
 		if total.CapHit || total.Horizons > 0 {
 			exhaustive = false
 		}
+		realWG.Add(1)
+		go func(sc *Scn, total *scnResult) { // real-socket replays run beside the exploration of the next scenarios
+			defer realWG.Done()
+			realSem <- struct{}{}
+			defer func() { <-realSem }()
+			realReplays(prop, sc, total, nil)
+		}(sc, total)
 		all = append(all, total)
 		for _, v := range total.Viol {
 			for i := 0; i < v.Count; i++ {
@@ -390,8 +411,9 @@ func main() {
 			}
 		}
 	}
+	realWG.Wait()
 	// evidence
-	var execs, steps, states, outcomes int
+	var execs, steps, states, outcomes, realRuns, realIn, realRaces int
 	var per []map[string]interface{}
 	var samples []interface{}
 	for _, t := range all {
@@ -405,7 +427,10 @@ func main() {
 		} else if t.Bound == -2 {
 			bc = "none"
 		}
-		per = append(per, map[string]interface{}{"scenario": t.Name, "executions": t.Execs, "scheduling_steps": t.Steps, "distinct_states": t.States, "pruned_prefixes": t.Pruned, "distinct_observation_logs": len(t.Outcomes), "deviation_bound_completed": bc, "cap_hit": t.CapHit, "inconclusive_worker_failure": t.Inconclusive, "horizon_hits": t.Horizons, "executions_ending_in_deadlock": t.Deadlocks, "executions_with_thread_panic": t.Crashes})
+		per = append(per, map[string]interface{}{"scenario": t.Name, "executions": t.Execs, "scheduling_steps": t.Steps, "distinct_states": t.States, "pruned_prefixes": t.Pruned, "distinct_observation_logs": len(t.Outcomes), "deviation_bound_completed": bc, "cap_hit": t.CapHit, "inconclusive_worker_failure": t.Inconclusive, "horizon_hits": t.Horizons, "executions_ending_in_deadlock": t.Deadlocks, "executions_with_thread_panic": t.Crashes, "distinct_client_visible_outcomes": len(t.ClientOutc), "real_stack_replays": t.RealRuns, "real_stack_replays_with_outcome_in_model_set": t.RealInSet, "real_stack_outcomes_outside_explored_set": t.RealOutside, "go_race_detector_reports_in_real_stack_replays": t.RealRaces, "go_race_detector_report_samples": t.RealRaceSamples})
+		realRaces += t.RealRaces
+		realRuns += t.RealRuns
+		realIn += t.RealInSet
 		if len(samples) < 4 {
 			samples = append(samples, map[string]interface{}{"scenario": t.Name, "schedule": t.SampleSched, "observation_log": t.Sample})
 		}
@@ -421,6 +446,7 @@ func main() {
 	r.Cov["rule"] = "every schedule of each closed scenario within the deviation bound (delay bounding: a deviation is any scheduling choice other than the default 'keep running the current thread, else the enabled thread with the lowest id'; bounds 0,1,..,B are completed in order; 'unbounded' = all schedules) is executed on the transformed real gldap code under the controlled scheduler; happens-before-equivalent prefixes are pruned by fingerprint; states = distinct HB fingerprints at choice points, transitions = scheduling steps, distinct_nontrivial = distinct observation logs (order of handler/close/OnClose/Stop/Run events) summed over scenarios"
 	r.Cov["samples"] = samples
 	r.Cov["scenarios"] = per
+	r.Cov["real_stack_replays"] = map[string]int{"runs_of_scenarios_on_untransformed_gldap_over_real_tcp": realRuns, "client_visible_outcome_found_in_the_model_explored_set": realIn, "go_race_detector_reports_with_a_gldap_frame_(thorough_tier_builds_the_replayer_with_-race)": realRaces}
 	r.Cov["exhaustive"] = exhaustive
 	r.Assume = []string{
 		"code between two scheduling points runs atomically (sound for data-race-free code; the vector-clock race oracle runs on every execution)",
@@ -623,6 +649,128 @@ func watchdog() {
 		if last != 0 && time.Since(time.Unix(0, last)) > 10*time.Second {
 			fmt.Fprintln(os.Stderr, "sched: watchdog: no scheduling activity for 10 s (native blocking?) - inconclusive")
 			os.Exit(3)
+		}
+	}
+}
+
+// clientOutcome is what the clients of an execution could observe, in a schedule-independent form.
+func clientOutcome(w *World) string {
+	var parts []string
+	for _, c := range w.Clients {
+		s := c.Name + ":"
+		if c.DialErr != nil {
+			s += "dial-failed"
+		}
+		frames, _, _ := codec.Frames(c.Got)
+		for _, f := range frames {
+			if r, err := codec.ParseResponse(f); err == nil {
+				s += fmt.Sprintf(" %d/%d", r.MsgID, r.Tag)
+			} else {
+				s += " ?"
+			}
+		}
+		if c.EOF {
+			s += " EOF"
+		}
+		if c.ReadErr != nil {
+			s += " ERR"
+		}
+		parts = append(parts, s)
+	}
+	sort.Strings(parts)
+	var ids []int
+	ids = append(ids, w.OnClose...)
+	sort.Ints(ids)
+	var disp []int
+	for _, d := range w.Dispatch {
+		disp = append(disp, int(d.MsgID))
+	}
+	sort.Ints(disp)
+	return strings.Join(parts, " | ") + fmt.Sprintf(" || onclose=%v dispatched=%v", ids, disp)
+}
+
+var realWG sync.WaitGroup
+var realSem = make(chan struct{}, 6)
+
+type realOut struct {
+	Outcome  string    `json:"outcome"`
+	Findings []Finding `json:"findings"`
+	Log      []string  `json:"log"`
+	Hung     bool      `json:"hung"`
+}
+
+// runReal (real-socket build): run the scenario once, free-running, on the untransformed gldap over real TCP.
+func runReal(name, prop string) int {
+	sc := findScn(name)
+	if sc.Spec == nil {
+		return 2
+	}
+	done := make(chan struct{})
+	go func() { sc.Body(); close(done) }()
+	out := realOut{}
+	select {
+	case <-done:
+	case <-time.After(60 * time.Second):
+		out.Hung = true
+	}
+	if !out.Hung && !vrt.FreeWait(30*time.Second) {
+		out.Hung = true
+	}
+	w, _ := vrt.FreeData().(*World)
+	x := &vrt.Sched{Log: vrt.FreeLog(), Data: w, Races: map[string]*vrt.Race{}}
+	out.Log = x.Log
+	if w != nil && !out.Hung {
+		vrt.Atomic(func() {
+			out.Outcome = clientOutcome(w)
+			if sc.Check != nil {
+				out.Findings = append(out.Findings, sc.Check(x, w)...)
+			}
+			out.Findings = append(out.Findings, universal(sc, x, w)...)
+		})
+	}
+	json.NewEncoder(os.Stdout).Encode(out)
+	return 0
+}
+
+// realReplays runs the scenario a few times on the real stack (when the real-socket worker was built) and
+// compares the client-visible outcome with the set the model exploration produced. Evidence only.
+func realReplays(prop string, sc *Scn, total *scnResult, idx map[string]*ev.Violation) {
+	bin := os.Getenv("VERIF_REAL_WORKER")
+	if bin == "" || sc.Spec == nil || !sc.Spec.realOK() || len(total.ClientOutc) == 0 {
+		return
+	}
+	n := 3
+	if prop == "C15" {
+		n = 1
+	}
+	for i := 0; i < n; i++ {
+		cmd := exec.Command(bin, "real", sc.Name, prop)
+		var errb strings.Builder
+		cmd.Stderr = &errb
+		cmd.Env = append(os.Environ(), "GORACE=halt_on_error=0 exitcode=0")
+		b, err := cmd.Output()
+		// a -race build (thorough tier) reports data races of the free-running execution on stderr
+		for _, rep := range strings.Split(errb.String(), "WARNING: DATA RACE")[1:] {
+			if strings.Contains(rep, "verif/gldapx") {
+				total.RealRaces++
+				if len(total.RealRaceSamples) < 2 {
+					lines := strings.Split(rep, "\n")
+					if len(lines) > 14 {
+						lines = lines[:14]
+					}
+					total.RealRaceSamples = append(total.RealRaceSamples, strings.Join(lines, "\n"))
+				}
+			}
+		}
+		var ro realOut
+		if err != nil || json.Unmarshal(b, &ro) != nil || ro.Hung {
+			continue
+		}
+		total.RealRuns++
+		if _, ok := total.ClientOutc[ro.Outcome]; ok {
+			total.RealInSet++
+		} else if len(total.RealOutside) < 3 {
+			total.RealOutside = append(total.RealOutside, ro.Outcome)
 		}
 	}
 }
